@@ -22,6 +22,14 @@ pub fn check(t: &Trace<'_>, out: &mut CaseOut) -> bool {
     let mut pending: Vec<u16> = Vec::new();
     let mut owed: VecDeque<Owed> = VecDeque::new();
     // expected deliveries: (conn, idx of broker packet)
+    // how many inbound QoS 2 exchanges the client said it can hold (Receive Maximum of the CONNECT
+    // it wrote on that connection): up to that many must be accepted
+    let advertised = |conn: usize| -> usize {
+        match w.conns[conn].out.packets.first().map(|p| &p.pkt) {
+            Some(CPacket::Connect { props, .. }) => props.iter().find_map(|p| if let crate::refcodec::Prop::ReceiveMaximum(v) = p { Some(*v as usize) } else { None }).unwrap_or(65535),
+            _ => 8,
+        }
+    };
     let mut expect: VecDeque<(usize, usize)> = VecDeque::new();
     let mut received: Vec<(u8, u16)> = Vec::new();
     let mut broken = false; // an ack could not be produced: the rest of the history is not judged
@@ -86,7 +94,7 @@ pub fn check(t: &Trace<'_>, out: &mut CaseOut) -> bool {
                                         out.count("redeliveries_with_a_full_table", 1);
                                     }
                                     nontrivial = true;
-                                } else if pending.len() < 8 {
+                                } else if pending.len() < advertised(*conn) {
                                     pending.push(pid);
                                     owed.push_back(Owed { kind: 5, pid, reason: 0, written_on: None });
                                     expect.push_back((*conn, *idx));
